@@ -175,7 +175,36 @@ def field_case(draw):
          "smooth_normals": draw(st.booleans()), "cad": False}
     if elements == "vertices":
         c["cad"] = draw(st.integers(0, 3)) == 0
+    c.update(draw(extras()))
     return c
+
+
+SCALES = [1.0, 1.0, 1.0, 1e-3, 1e3, 1e-6, 1e6]
+
+
+@st.composite
+def extras(draw):
+    """uniform scale of the geometry (the field is scale free), integer-typed coordinates, verbose switch"""
+    return {"scale": draw(st.sampled_from(SCALES)), "int_coords": draw(st.integers(0, 3)) == 0, "verbose": draw(st.integers(0, 4)) == 0}
+
+
+@st.composite
+def step(draw):
+    elements = draw(st.sampled_from(["faces", "faces", "vertices"]))
+    return {"elements": elements, "order": draw(ORDERS), "features": draw(st.booleans()),
+            "n_smooth": draw(st.sampled_from([0, 0, 1, 2])), "alpha": draw(st.sampled_from(ALPHAS)), "cotan": draw(st.booleans()),
+            "smooth_normals": draw(st.booleans()), "cad": False, "verbose": draw(st.integers(0, 5)) == 0}
+
+
+@st.composite
+def sequence_case(draw):
+    """2-4 fields computed one after another on the SAME mesh object (orders / elements / options differ)"""
+    s = draw(st.one_of(panels(min_size=3), panels(roof=True, min_size=3), panels(roof=False, min_size=3), good_delaunay(),
+                       G.well_shaped_trisurf(max_faces=60, bordered=True), regular_closed(), G.well_shaped_trisurf(max_faces=60, bordered=False)))
+    steps = draw(st.lists(step(), min_size=2, max_size=4))
+    ex = draw(extras())
+    return {"V": s["V"], "F": s["F"], "tags": s["tags"], "steps": steps, "scale": ex["scale"], "int_coords": ex["int_coords"],
+            "repeat_first": draw(st.booleans())}
 
 
 @st.composite
@@ -213,10 +242,73 @@ def laplacian_case(draw):
 
 def make_ff(case, mesh):
     from mouette.processing.framefield.framefield import SurfaceFrameField
-    return SurfaceFrameField(mesh, case["elements"], order=int(case["order"]), features=bool(case["features"]), verbose=False,
-                             n_smooth=int(case["n_smooth"]), smooth_attach_weight=float(case["alpha"]),
+    return SurfaceFrameField(mesh, case["elements"], order=int(case["order"]), features=bool(case["features"]),
+                             verbose=bool(case.get("verbose", False)),
+                             n_smooth=int(case["n_smooth"]), smooth_attach_weight=eff_alpha(case),
                              use_cotan=bool(case["cotan"]), cad_correction=bool(case["cad"]),
                              smooth_normals=bool(case["smooth_normals"]))
+
+
+def eff_alpha(case):
+    """the attach weight multiplies an area matrix: it carries 1/length^2, so the drawn value is given for the unit-scale mesh"""
+    return float(case["alpha"]) / float(case.get("scale", 1.0)) ** 2
+
+
+def quiet(f):
+    """run f with stdout swallowed (verbose=True logs through print)"""
+    import io, contextlib
+
+    def g(*a, **k):
+        with contextlib.redirect_stdout(io.StringIO()):
+            return f(*a, **k)
+    return g
+
+
+def realise(case):
+    """apply the drawn uniform scale (and integer typing of the coordinates) to the case geometry"""
+    sc = float(case.get("scale", 1.0))
+    V = [[float(x) * sc for x in v] for v in case["V"]]
+    return dict(case, V=V)
+
+
+def build_mesh(case):
+    """case geometry already realised; int_coords: coordinates handed over as integer numpy rows when they are integral"""
+    V = case["V"]
+    # (magnitudes kept below 1e5: int64 products of three coordinates overflow silently beyond, which is numpy's arithmetic)
+    if case.get("int_coords") and all(float(x).is_integer() and abs(x) < 1e5 for v in V for x in v):
+        import mouette as M
+        from mouette.mesh.mesh_data import RawMeshData
+        raw = RawMeshData()
+        raw.vertices += [np.array([int(x) for x in v], dtype=np.int64) for v in V]
+        raw.faces += [list(f) for f in case["F"]]
+        return M.mesh.SurfaceMesh(raw), True
+    return surface_from(V, case["F"]), False
+
+
+class Prefixed:
+    """ctx proxy that prefixes every message (which step of a history failed)"""
+
+    def __init__(self, ctx, where):
+        self._c, self._w = ctx, where
+
+    def check(self, cond, sig, msg="", **kw):
+        return self._c.check(cond, sig, (self._w + msg) if not cond else msg, **kw)
+
+    def __getattr__(self, name):
+        return getattr(self._c, name)
+
+
+def mesh_unchanged(case, mesh, ctx, where=""):
+    """the mesh handed to the solver is an argument: geometry and connectivity must come back untouched"""
+    try:
+        Vm = np.array([[float(x) for x in v] for v in mesh.vertices]).reshape(-1, 3)
+        Fm = [[int(x) for x in f] for f in mesh.faces]
+    except Exception as e:
+        ctx.check(False, "mesh-argument-modified", f"{where}cannot read the mesh back: {type(e).__name__}: {e}")
+        return
+    V = np.array(case["V"], dtype=float).reshape(-1, 3)
+    ctx.check(Vm.shape == V.shape and bool(np.all(Vm == V)) and Fm == [list(map(int, f)) for f in case["F"]], "mesh-argument-modified",
+              f"{where}vertices / faces of the mesh passed to SurfaceFrameField differ after the computation")
 
 
 def vec3(x):
@@ -365,20 +457,34 @@ def check_surface(case):
 
 def fn_field(case, ctx):
     ref = check_surface(case)
+    case = realise(case)
+    if case["elements"] == "vertices" and min_vertex_normal_norm(case["V"], case["F"]) < 1e-3:
+        ctx.discard("a vertex without tangent plane (incident face normals cancel)")
+        return
+    mesh, as_int = build_mesh(case)
+    ctx.label("scale=%g" % float(case.get("scale", 1.0)), "verbose=%s" % bool(case.get("verbose", False)))
+    if as_int:
+        ctx.label("int-coords")
+    if check_field(case, mesh, ref, ctx) is not None:
+        mesh_unchanged(case, mesh, ctx)
+
+
+def check_field(case, mesh, ref, ctx, where="", rng_seed=None):
+    """Compute one field on `mesh` (fresh or already used) and apply every oracle. Returns a dict of results, or None when
+    the case was discarded / a (known) violation stopped it."""
+    if where:
+        ctx = Prefixed(ctx, where)
     V, F = case["V"], case["F"]
     nV, nF = len(V), len(F)
     order = int(case["order"])
     elements = case["elements"]
     n_el = nV if elements == "vertices" else nF
     bordered = len(ref.border_edges()) > 0
-    if elements == "vertices" and min_vertex_normal_norm(V, F) < 1e-3:
-        ctx.discard("a vertex without tangent plane (incident face normals cancel)")
-        return
-    mesh = surface_from(V, F)
+    out = {"sing": None}
 
     ok, ff = ctx.call("construct", make_ff, case, mesh)
     if not ok: return
-    ok, _ = ctx.call("initialize", ff.initialize)
+    ok, _ = ctx.call("initialize", quiet(ff.initialize))
     if not ok: return
     medges = lib_edges(mesh)
     if not ctx.check(hasattr(ff.var, "shape") and tuple(np.shape(ff.var)) == (n_el,), "var-shape",
@@ -437,15 +543,17 @@ def fn_field(case, ctx):
     # harness-side replica of the documented scheme (asserted only for n_smooth = 0; otherwise used for exemptions)
     xs = cond = err = None
     if L is not None and fixed:
-        xs, cond, err = replicate_solve(L, A, free, fixed, var0, int(case["n_smooth"]), float(case["alpha"]))
+        xs, cond, err = replicate_solve(L, A, free, fixed, var0, int(case["n_smooth"]), eff_alpha(case))
         if not np.isfinite(cond) or cond > 1e12:
             # negative cotangent weights of a non-Delaunay mesh (or an attach weight hitting an eigenvalue) can make the
             # system exactly singular: no solution is defined, nothing to assert
             ctx.discard("singular linear system (cond > 1e12)")
             ctx.label("singular-system")
-            return
+            return "discarded"
 
-    ok, _ = ctx.call("run", ff.run)
+    if rng_seed is not None:
+        np.random.seed(int(rng_seed))
+    ok, _ = ctx.call("run", quiet(ff.run))
     if not ok: return
     if not ctx.check(hasattr(ff.var, "shape") and tuple(np.shape(ff.var)) == (n_el,), "var-shape",
                      f"after run() var has shape {np.shape(ff.var)}, expected ({n_el},)"):
@@ -545,7 +653,7 @@ def fn_field(case, ctx):
 
     # (3) singularities of the face field
     if elements == "faces":
-        ok, _ = ctx.call("flag_singularities", ff.flag_singularities)
+        ok, _ = ctx.call("flag_singularities", quiet(ff.flag_singularities))
         if not ok: return
         if not ctx.check(mesh.vertices.has_attribute("singuls"), "no-singuls-attribute", "flag_singularities() created no 'singuls' attribute"):
             return
@@ -564,8 +672,80 @@ def fn_field(case, ctx):
         n_unflagged = int(np.sum(idxs == 0))
         tol = n_unflagged * 1e-3 * 2 / math.pi + 1e-6
         ctx.label("singular-interior>0" if any(idxs[v] != 0 for v in range(nV) if v not in bv) else "singular-interior=0")
-        ctx.check(abs(float(np.sum(idxs)) - 4 * chi) <= tol, "index-sum",
-                  f"indices sum to {float(np.sum(idxs))!r}, expected 4*chi = {4 * chi} (tolerance {tol:.2e}, {n_unflagged} unflagged vertices)")
+        if not ctx.check(abs(float(np.sum(idxs)) - 4 * chi) <= tol, "index-sum",
+                         f"indices sum to {float(np.sum(idxs))!r}, expected 4*chi = {4 * chi} (tolerance {tol:.2e}, {n_unflagged} "
+                         f"unflagged vertices, order {order})"):
+            return
+        out["sing"] = idxs
+    out.update(var=var, var0=var0, fixed=fixed, free=free, cond=cond, ff=ff)
+    return out
+
+
+# ----------------------------------------------------------------------------------------------- sub-check: sequence
+
+def fn_sequence(case, ctx):
+    """Several fields on one mesh object: every one of them must satisfy every oracle, and must be the field (and the
+    singularity indices) obtained on a fresh mesh with the same options and the same numpy.random state."""
+    ref = check_surface(case)
+    case = realise(case)
+    V, F = case["V"], case["F"]
+    steps = [dict(st_) for st_ in case["steps"]]
+    if case.get("repeat_first"):
+        steps.append(dict(steps[0]))           # a re-computed field after others
+    if any(c["elements"] == "vertices" for c in steps) and min_vertex_normal_norm(V, F) < 1e-3:
+        ctx.discard("a vertex without tangent plane (incident face normals cancel)")
+        return
+    for t in case.get("tags", []):
+        if t.startswith("base=") or t in ("closed", "bordered"):
+            ctx.label(t)
+    ctx.label("steps=%d" % len(steps), "scale=%g" % float(case.get("scale", 1.0)))
+    kinds = [(c["elements"], c["order"]) for c in steps]
+    ctx.label("mixed-elements" if len(set(k[0] for k in kinds)) > 1 else "one-element-kind")
+    nface = sum(1 for k in kinds if k[0] == "faces")
+    ctx.label("face-fields>=2" if nface >= 2 else "face-fields<2")
+    ctx.nontrivial(len(set(kinds)) >= 2 and any(not ref.edge_on_border(*e) for e in ref.uedges))
+    mesh, as_int = build_mesh(case)
+    if as_int:
+        ctx.label("int-coords")
+    sing_sets = []
+    for k, cfg in enumerate(steps):
+        c = dict(cfg, V=V, F=F, scale=float(case.get("scale", 1.0)))
+        where = f"step {k} of {[(x['elements'][0], x['order'], int(x['features'])) for x in steps]} on one mesh object: "
+        r = check_field(c, mesh, ref, ctx, where, rng_seed=1000 + k)
+        if r is None:
+            return
+        if r == "discarded":
+            continue
+        if c["elements"] == "vertices":
+            # history step only (vertex-field singularity values are not asserted): must not disturb what follows
+            ok, _ = ctx.call("flag_singularities:vertices", quiet(r["ff"].flag_singularities))
+            if not ok: return
+        fresh_mesh, _ = build_mesh(case)
+        rf = check_field(c, fresh_mesh, ref, ctx, f"(fresh mesh, options of step {k}) ", rng_seed=1000 + k)
+        if rf is None:
+            return
+        if rf == "discarded" or (r["cond"] is not None and r["cond"] > COND_MAX):
+            continue
+        if not r["fixed"]:
+            # eigen path: on symmetric closed meshes the lowest eigenspace is degenerate and the vector picked depends on
+            # round-off level differences (e.g. cotangents re-used from a cached attribute): nothing to compare
+            ctx.label("eigen-step-not-compared")
+            continue
+        d = np.abs(r["var"] - rf["var"])
+        j = int(np.argmax(d)) if d.size else 0
+        if not ctx.check(d.size == 0 or float(d[j]) <= TOL_SOLVE, "reused-mesh-field-differs",
+                         f"{where}{c['elements']} field differs from the one computed on a fresh mesh with the same options: element {j}: "
+                         f"{r['var'][j] if d.size else None} vs {rf['var'][j] if d.size else None}"):
+            return
+        if r["sing"] is not None and rf["sing"] is not None:
+            ds = np.abs(r["sing"] - rf["sing"])
+            j = int(np.argmax(ds))
+            if not ctx.check(float(ds[j]) <= 1e-6, "reused-mesh-singularities-differ",
+                             f"{where}singularity index of vertex {j} is {r['sing'][j]!r}, on a fresh mesh {rf['sing'][j]!r}"):
+                return
+            sing_sets.append(frozenset(np.where(r["sing"] != 0)[0].tolist()))
+    ctx.label("distinct-singular-sets" if len(set(sing_sets)) >= 2 else "same-singular-sets")
+    mesh_unchanged(case, mesh, ctx)
 
 
 # ----------------------------------------------------------------------------------------------- sub-check: renumbering
@@ -604,7 +784,7 @@ def run_field(case, V, F, ctx, tag):
     xs = cond = err = None
     if fixed and free:
         L, A = library_operators(case, mesh, ff)
-        xs, cond, err = replicate_solve(L, A, free, fixed, var0, int(case["n_smooth"]), float(case["alpha"]))
+        xs, cond, err = replicate_solve(L, A, free, fixed, var0, int(case["n_smooth"]), eff_alpha(case))
     ok, _ = ctx.call("run", ff.run)
     if not ok: return None
     var = np.array(ff.var, dtype=complex)
@@ -851,6 +1031,7 @@ def self_test():
 
 SUBCHECKS = [
     SubCheck("field", field_case(), fn_field, quick=3000, thorough=8000),
+    SubCheck("sequence", sequence_case(), fn_sequence, quick=500, thorough=1500),
     SubCheck("renumber_vertices", renumber_case("vertices"), fn_renumber, quick=600, thorough=1500),
     SubCheck("renumber_faces", renumber_case("faces"), fn_renumber, quick=600, thorough=1500),
     SubCheck("laplacian", laplacian_case(), fn_laplacian, quick=800, thorough=1500),
